@@ -237,6 +237,8 @@ func runC09(cx *ctx) {
 	cx.ru.Do(func() *h.Case {
 		return &h.Case{Kind: "model-constants", Line: "kconsts", Impl: "ok", NonTrivial: true}
 	})
+	// the standard-library stubs used by the functions translated from the Go source (lean/AgeModel/GoSem.lean)
+	goSemCases(cx)
 
 	// --- printing and round trip on random and boundary keys
 	var keys [][]byte
